@@ -685,6 +685,12 @@ def run_group_case(ureg, n, edges, units, seq, policy, col):
     Returns number of observations."""
     _TAG[0] += 1
     tag = "t%d_" % _TAG[0]
+    # the scratch registry is reused for many cases: drop the groups/systems of earlier cases so that the
+    # cost of a case does not grow with the number of cases already run
+    for table in (getattr(ureg, "_systems", None), getattr(ureg, "_groups", None)):
+        if table is not None:
+            for k in [k for k in table if k.startswith("t") and "_" in k]:
+                del table[k]
     names = [tag + "g%d" % i for i in range(n)]
     gid = graph_id(n, edges, units)
     example = {"part": "group", "n": n, "edges": [list(e) for e in edges], "units": [list(u) for u in units],
